@@ -160,6 +160,7 @@ func c08Run(t *rapid.T, salt string, stakes []int64, ops []c08Op, nu c08Nuisance
 	block(c.MustSign(ua, &schedtypes.MsgCreateJob{Metadata: chain.MD(ua), Job: &schedtypes.Job{ID: "j1", Routing: schedtypes.Routing{ChainType: "evm", ChainReferenceID: c08Chain}, Definition: def, Payload: pl}}))
 	q := chain.TurnstoneQueue(c08Chain)
 	skyNonce := uint64(0)
+	compassGen := 0
 	n := len(c.Vals)
 	queries := func() {
 		ctx := c.ReadCtx()
@@ -299,6 +300,16 @@ func c08Run(t *rapid.T, salt string, stakes []int64, ops []c08Op, nu c08Nuisance
 			if labels["validatorMissing>=2Chains"] {
 				labels["missingChainsJailingHeight"] = true
 			}
+		case "activateCompass":
+			// a new compass deployment becomes active on eth-main (fixture, as in C02): the evm module announces it on
+			// the in-process event bus and the bridge module resets its oracle cursor and deployment id in the same block
+			ctx := c.Ctx()
+			if sc, err := c.App.EvmKeeper.GetLastCompassContract(ctx); err == nil {
+				compassGen++
+				_ = c.App.EvmKeeper.ActivateChainReferenceID(ctx, c08Chain, sc, "0x00000000000000000000000000000000000000c1", []byte(fmt.Sprintf("compass-%d", compassGen+1)))
+			}
+			block()
+			labels["compassActivation"] = true
 		case "toNext50":
 			target := (c.H/50 + 1) * 50
 			for c.H <= target {
@@ -322,7 +333,7 @@ func TestC08_TwinExecutionsAgree(t *testing.T) {
 				stakes[i] = int64(rapid.IntRange(50, 150).Draw(t, "stake")) * 1_000_000
 			}
 		}
-		kinds := []string{"status", "status", "exec", "exec", "fee", "keepAlive", "delegate", "estimates", "evidence", "send", "deposit", "advance", "toNext50", "dropChains", "dropChains", "toNext303"}
+		kinds := []string{"status", "status", "exec", "exec", "fee", "keepAlive", "delegate", "estimates", "evidence", "send", "deposit", "advance", "toNext50", "dropChains", "dropChains", "toNext303", "activateCompass"}
 		nops := rapid.IntRange(5, 25).Draw(t, "nOps")
 		ops := make([]c08Op, nops)
 		for i := range ops {
